@@ -3066,7 +3066,10 @@ impl LineBuf {
 							mode.set_anchor(SelectAnchor::Start);
 						}
 					}
-					self.select_range = Some(SelectRange::OneDim((start,end)));
+					// A block selection is rebuilt from the cursor by update_select_range()
+					if !matches!(self.select_mode, Some(SelectMode::Block {..})) {
+						self.select_range = Some(SelectRange::OneDim((start,end)));
+					}
 				}
 			}
 			MotionKind::Exclusive((start,end)) => {
@@ -3086,7 +3089,9 @@ impl LineBuf {
 							mode.set_anchor(SelectAnchor::Start);
 						}
 					}
-					self.select_range = Some(SelectRange::OneDim((start,end)));
+					if !matches!(self.select_mode, Some(SelectMode::Block {..})) {
+						self.select_range = Some(SelectRange::OneDim((start,end)));
+					}
 				}
 			}
 			MotionKind::Lines(_) => {
